@@ -11,43 +11,12 @@
 (* -> ->>, and the three routes  c | (macroexpand c) | (eval (macroexpand  *)
 (* c)).                                                                    *)
 (***************************************************************************)
-EXTENDS GenProg
+EXTENDS GenProg, Grammars
 
 CONSTANTS Mode, MaxSize, SampleSize, SampleN
 
-CtxText == "(def x 7) (def xs (list 1 2)) (def v [3 4]) (def em ()) " \o
-           "(defmacro m1 (fn [a] `(list ~a ~a))) " \o
-           "(defmacro m2 (fn [a & r] `(if ~a (do ~@r) nil))) " \o
-           "(defmacro m3 (fn [a] (list 'quote a))) " \o
-           "(defmacro m4 (fn [a] `(m1 (m3 ~a)))) " \o
-           "(defmacro mrec (fn [n] (if (< n 1) :done `(mrec ~(- n 1))))) " \o
-           "(defmacro m5 (fn [a b] `[~b ~@(list a a) {:k ~a}])) " \o
-           "(defmacro mx (fn [a] `(let [x 1] (list x ~a)))) " \o
-           "(defmacro mempty (fn [& r] ())) " \o
-           "(defmacro mcall (fn [& xs] `(~@xs))) " \o
-           "(def f1 (fn [a] (list a a)))"
-CtxForms == ReadAll(CtxText)
-
-GQ == Grammar(
-  <<"1", "a", ":k", "\"s\"", "~x", "~@xs", "~@em", "~@v", "~(trace! x)", "~@(trace! xs)", "unquote",
-    "splice-unquote", "x", "()", "~@x">>,
-  <<"(_1)", "[_1]", "{:k _1}", "(a _1)">>,
-  <<"(_1 _2)", "[_1 _2]">>,
-  <<"(_1 _2 _3)", "[_1 _2 _3]">>)
-
-GM == Grammar(
-  <<"1", "x", "nil", "false", "(trace! 1)", "(trace! x)", "(trace! nil)", "xs", "(mrec 2)", "(macroexpand (mrec 2))", "(mempty)", "(mcall)",
-    "(macroexpand (mcall))">>,
-  <<"(m1 _1)", "(m3 _1)", "(f1 _1)", "(m4 _1)", "(mx _1)", "(mempty _1)", "(mcall list _1)", "(macroexpand (m1 _1))", "(eval (macroexpand (m1 _1)))",
-    "(macroexpand (m4 _1))", "(eval (macroexpand (m4 _1)))", "(or _1)", "(and _1)", "(-> _1 inc)",
-    "(cond _1 :c)", "(let [m1 f1] (m1 _1))", "(macroexpand (m2 _1))", "(macroexpand (f1 _1))",
-    "(let [m3 (fn [a] :local)] (macroexpand (m3 _1)))">>,
-  <<"(m2 _1 _2)", "(or _1 _2)", "(and _1 _2)", "(cond _1 _2)", "(-> _1 (list _2))", "(->> _1 (list _2))",
-    "(macroexpand (or _1 _2))", "(eval (macroexpand (or _1 _2)))", "(m5 _1 _2)", "(macroexpand (m5 _1 _2))",
-    "(eval (macroexpand (and _1 _2)))", "(macroexpand (cond _1 _2))">>,
-  <<"(m2 _1 _2 _3)", "(or _1 _2 _3)", "(and _1 _2 _3)", "(cond _1 _2 true _3)">>)
-
-G == IF Mode = "qq" THEN GQ ELSE GM
+CtxForms == C12CtxForms
+G == IF Mode = "qq" THEN C12GQ ELSE C12GM
 Wrap(t) == IF Mode = "qq" THEN ListV(<<SymV("quasiquote"), t>>) ELSE t
 
 NMax == IF SampleSize > MaxSize THEN SampleSize ELSE MaxSize
@@ -68,6 +37,13 @@ Next == /\ ph = 0 /\ ph' = 1 /\ UNCHANGED <<sz, idx>>
                r == RunInCtx(<<prog>>)
                c == [kind |-> "prog", tag |-> Mode \o ":" \o HeadTag(IF Mode = "qq" THEN prog.xs[2] ELSE prog),
                      src |-> PrStr(prog), ctx |-> "c12", forms |-> <<prog>>, allow |-> Outcome(r, {"x"})]
-           IN PrintT("CASE " \o ToJson(c))
+               \* QQAlgebra (theorem checked on the model for every template): evaluating the cons/concat/vec/quote
+               \* REWRITE the code performs gives the same result and effects as the template SUBSTITUTION
+               alg == IF Mode = "qq" /\ r.k # "unspec" /\ QQWellFormed(prog.xs[2])
+                      THEN LET r2 == RunInCtx(<<QQRewrite(prog.xs[2])>>) IN
+                             r2.k = r.k /\ (r.k = "val" => StructEq(r2.v, r.v) /\ r2.v.t = r.v.t) /\ r2.st.eff = r.st.eff
+                      ELSE TRUE
+           IN /\ Assert(alg, <<"QQAlgebra fails on the model", PrStr(prog)>>)
+              /\ PrintT("CASE " \o ToJson(c))
 Spec == Init /\ [][Next]_<<sz, idx, ph>>
 =============================================================================
